@@ -21,6 +21,8 @@ type Program struct {
 	Regs  []string `json:"regs"`
 	Ctxs  []string `json:"ctxs,omitempty"`
 	Steps []M      `json:"steps"`
+	// Only64: the program needs more memory than a 32-bit process has; the GOARCH=386 executor does not run its batch
+	Only64 bool `json:"only64,omitempty"`
 }
 
 // G is a seeded generator context.
